@@ -47,9 +47,12 @@ InplaceOK(a, b) == /\ Native(a) /\ Native(b)
                         [] a.cls = "UniformScale" -> IsSub(b.cls, "UniformScale")
                         [] a.cls = "NonUniformScale" -> b.cls \in {"NonUniformScale", "UniformScale"}
 \* ---- effective map of any object (chains follow their members' current state) -----------
+\* (TLC evaluates function constructors lazily: without forcing, every entry of a nested product re-evaluates the inner
+\*  products - exponential in the chain length.  Strict only forces evaluation; it is the identity on values.)
+Strict(M) == TLCEval([i \in 1..Len(M) |-> TLCEval([j \in 1..Len(M) |-> TLCEval(M[i][j])])])
 RECURSIVE EffM(_,_), ChainProd(_,_)
 EffM(t, i) == IF t[i].cls = "Chain" THEN ChainProd(t, t[i].members) ELSE t[i].M
-ChainProd(t, ms) == IF ms = <<>> THEN IdM(Len(t[1].M)) ELSE MMul(ChainProd(t, Tail(ms)), EffM(t, Head(ms)))
+ChainProd(t, ms) == IF ms = <<>> THEN IdM(Len(t[1].M)) ELSE Strict(MMul(ChainProd(t, Tail(ms)), EffM(t, Head(ms))))
 RECURSIVE Reaches(_,_,_)
 Reaches(t, x, target) == x = target \/ (t[x].cls = "Chain" /\ \E k \in 1..Len(t[x].members) : Reaches(t, t[x].members[k], target))
 Obj(c, al, M) == [cls |-> c, al |-> al, M |-> M, src |-> <<>>, tgt |-> <<>>, members |-> <<>>]
